@@ -97,10 +97,11 @@ def run(tier, seed):
         "evaluations": summary["plot"] + summary["collect"] + summary["mood"] + len(e2e_done),
         "distinct_nontrivial": summary["distinct_nontrivial"],
         "exhaustive": False,
-        "rule": "plot: generated configurations (0-4 actors over 1-2 roles with event/scalar/delta signals; 0-5 members declared member by member or interleaved, with watches of signals / every <role> / computed and built-in variables, measures, only helps, audits, computes, collects, expects; 0-4 acts, optional repeat from) x collected states (hasData per actor / watched variable / auditor, 0-4 mood periods incl. partly or wholly outside the window and rare infinite ends, act starts with 0-3 repetitions and early termination, collected range absent / short / negative start / normal), through the real assemble + plot + subPlots; both scripts and runme.gp parsed strictly into directives. non-trivial = distinct (configuration, state) whose script has at least one lane or one member box. collect: the same configurations (a third with an auditor that has no watches and mentions only t / mood / moodt) with the collected state PRODUCED BY THE REAL COLLECTOR: generated action reports, observations (of watched signals, watched and built-in variables) and audition reports are fed through the real collectActionReport / collectObservation / collectAuditionReport (expandTimeRange included), then the real assemble + plot run; the expected state is derived from the events alone (verdicts count as received data). mood: random mood-change sequences (incl. unchanged moods, clear, out-of-order time stamps) through the real collectAndAuditMood/checkFinal. e2e (4 plays quick, 12 thorough): plays through the real binary, each with an auditor whose only data are verdicts.",
+        "rule": "plot: generated configurations (0-4 actors over 1-2 roles with event/scalar/delta signals; 0-5 members declared member by member or interleaved, with watches of signals / every <role> / computed and built-in variables, measures, only helps, audits, computes, collects, expects; 0-4 acts, optional repeat from) x collected states (hasData per actor / watched variable / auditor, 0-4 mood periods incl. partly or wholly outside the window and rare infinite ends, act starts with 0-3 repetitions and early termination, collected range absent / short / negative start / normal), through the real assemble + plot + subPlots; both scripts and runme.gp parsed strictly into directives. non-trivial = distinct (configuration, state) whose script has at least one lane or one member box. collect: the same configurations (a third with an auditor that has no watches and mentions only t / mood / moodt) with the collected state PRODUCED BY THE REAL COLLECTOR: generated action reports, observations (of watched signals, watched and built-in variables) and audition reports are fed through the real collectActionReport / collectObservation / collectAuditionReport (expandTimeRange included), then the real assemble + plot run; the expected state is derived from the events alone (verdicts count as received data), and every '../csv/...' file the scripts name must be one the collector wrote. mood: random mood-change sequences (incl. unchanged moods, clear, out-of-order time stamps) through the real collectAndAuditMood/checkFinal. e2e (4 plays quick, 12 thorough): plays through the real binary, each with an auditor whose only data are verdicts.",
         "samples": summary["samples"],
         "distribution": dict(summary["stats"], plot_cases=summary["plot"], collect_cases=summary["collect"],
-                             collect_cases_with_verdict_only_member=summary["collect_verdict_only_boxes"], mood_cases=summary["mood"],
+                             collect_cases_with_verdict_only_member=summary["collect_verdict_only_boxes"],
+                             cases_plotting_a_missing_csv=summary["missing_csv_cases"], mood_cases=summary["mood"],
                              e2e_plays=summary["e2e"], e2e_completed=summary["e2e_completed"],
                              unusable_configurations=summary["unusable_configurations"]),
         "traces_validated_against_impl": summary["plot"] + summary["collect"] + summary["mood"] + len(e2e_done),
@@ -136,6 +137,13 @@ def run(tier, seed):
                        "expected_received": {k: c["Data"][k] for k in ("ActorHas", "VarHas", "AuditHas", "ObsHas")},
                        "observed": {"csv": c.get("CSV"), "MinTime": c["Out"]["MinTime"], "MaxTime": c["Out"]["MaxTime"], "files": c["Out"]["Files"]},
                        "replay": "cmd.VerifCollectAndPlot(cfg, events, moods, acts, numRepeats) — see harness/c19/main.go runCollectCase; case index %d of seed %d" % (idx, seed)})
+    miss = [("collect", x) for x in cases["collect"] if x.get("Missing")] + [("e2e", x) for x in e2e_done if x.get("Missing")]
+    if miss:
+        kind, c = miss[0]
+        res.violation("plotted-csv-missing", "the plot script reads csv files the collector did not write: %s (%d cases)" % (", ".join(c["Missing"][:4]), len(miss)),
+                      {"kind": "failing-input", "where": kind, "missing": c["Missing"], "csv_written": c.get("CSV"),
+                       "input": {"cfg": c["Cfg"], "events": c.get("Events")}, "n_failing": len(miss),
+                       "replay": "cmd.VerifCollectAndPlot(cfg, events, ...) resp. the real binary on cfg; compare the '../csv/...' names in plots/*.gp with the csv directory"})
     if vals["Omood"]:
         c = cases["mood"][vals["Omood"][0]]
         res.violation("mood-periods", "the recorded mood periods are not the maximal non-clear stretches of the mood changes",
